@@ -109,14 +109,41 @@ func NormalizeString(s string) string {
 	return ctystrings.Normalize(s)
 }
 
+// shadowedKey decides which entry of a Go map is used when several of its keys
+// normalize to the same string, so that the outcome does not depend on Go's
+// randomized map iteration order: the entry whose key is already in normal
+// form wins, and otherwise the entry whose key sorts first. It returns true if
+// the entry under key must be skipped. chosen is scratch space shared between
+// the calls made for one map.
+func shadowedKey[V any](entries map[string]V, key, normKey string, chosen *map[string]string) bool {
+	if key == normKey {
+		return false
+	}
+	if _, exists := entries[normKey]; exists {
+		return true
+	}
+	if prev, seen := (*chosen)[normKey]; seen && prev < key {
+		return true
+	}
+	if *chosen == nil {
+		*chosen = make(map[string]string)
+	}
+	(*chosen)[normKey] = key
+	return false
+}
+
 // ObjectVal returns a Value of an object type whose structure is defined
 // by the key names and value types in the given map.
 func ObjectVal(attrs map[string]Value) Value {
 	attrTypes := make(map[string]Type, len(attrs))
 	attrVals := make(map[string]interface{}, len(attrs))
 
-	for attr, val := range attrs {
-		attr = NormalizeString(attr)
+	var chosen map[string]string
+	for rawAttr, val := range attrs {
+		attr := NormalizeString(rawAttr)
+		if shadowedKey(attrs, rawAttr, attr, &chosen) {
+			continue
+		}
 		attrTypes[attr] = val.ty
 		attrVals[attr] = val.v
 	}
@@ -212,6 +239,7 @@ func MapVal(vals map[string]Value) Value {
 	}
 	elementType := DynamicPseudoType
 	rawMap := make(map[string]interface{}, len(vals))
+	var chosen map[string]string
 
 	for key, val := range vals {
 		if elementType == DynamicPseudoType {
@@ -223,7 +251,11 @@ func MapVal(vals map[string]Value) Value {
 			))
 		}
 
-		rawMap[NormalizeString(key)] = val.v
+		normKey := NormalizeString(key)
+		if shadowedKey(vals, key, normKey, &chosen) {
+			continue
+		}
+		rawMap[normKey] = val.v
 	}
 
 	return Value{
